@@ -47,7 +47,17 @@ def rand_tuple(rng):
         if r < 0.15:
             ops.append(gen.rand_numeric(rng, s))
         else:
-            ops.append(gen.rand_poly(rng, s, gen.rand_names(rng, 3), dtype=numpy.int64))
+            dt = numpy.int64 if rng.random() < 0.6 else rng.choice([numpy.float64, numpy.int16, numpy.uint8, numpy.float32, numpy.complex64, numpy.uint64, numpy.int32])
+            unsigned = numpy.dtype(dt).kind == "u"
+            q = gen.rand_poly(rng, s, gen.rand_names(rng, 3), dtype=numpy.int64 if unsigned else dt)
+            if dt is numpy.int64 and rng.random() < 0.15:
+                # coefficients that a detour through floating point would change
+                q = numpoly.polynomial_from_attributes(q.exponents, [numpy.where(c != 0, c + (2 ** 53 + 1) * numpy.sign(c), 0) for c in q.coefficients],
+                                                       q.names, retain_coefficients=True, retain_names=True)
+            if numpy.dtype(dt).kind == "u":
+                q = numpoly.polynomial_from_attributes(q.exponents, [numpy.abs(numpy.asarray(c).astype(numpy.int64)).astype(dt) for c in q.coefficients],
+                                                       q.names, retain_coefficients=True, retain_names=True)
+            ops.append(q)
     if rng.random() < 0.08:           # shapes that do not broadcast
         ops.append(gen.rand_poly(rng, (2,), None, dtype=numpy.int64))
         ops.append(gen.rand_poly(rng, (3,), None, dtype=numpy.int64))
@@ -113,6 +123,10 @@ def run(report, tier, seed):
                                 for c in xin.coefficients], xin.names, retain_coefficients=True, retain_names=True)
             if core.canon_elements(r) != core.canon_elements(want):
                 viol.append(("value", f"{fname}: result {j} does not equal its input (broadcast): {desc}", rep))
+                break
+        for j, (x, r) in enumerate(zip(ops, res)):
+            if r.dtype != numpoly.aspolynomial(x).dtype:
+                viol.append(("dtype", f"{fname}: result {j} has coefficient dtype {r.dtype}, its input has {numpoly.aspolynomial(x).dtype}: {desc}", rep))
                 break
         if fname in ("align_shape", "align_polynomials") and any(tuple(r.shape) != tuple(common) for r in res):
             viol.append(("shape", f"{fname}: results do not share the broadcast shape {common}: {desc}", rep))
